@@ -588,3 +588,41 @@ Proof. destruct Z_laws as [A [B [C [E F]]]]. split; [repeat split; assumption | 
 Definition sat_add (a d : Z) : Z := Z.min (a + d) 10.
 Lemma sat_ordered : ordered_delays Z sat_add Z.leb.
 Proof. unfold sat_add. repeat split; intros; lia. Qed.
+
+(* ---------- independence of the topological order, any ordered domain ---------- *)
+Lemma gcpath_ext D dneg nl1 nl2 (dl : net -> D) w p w' :
+  (forall n, In n (nets nl1) -> In n (nets nl2)) ->
+  gcpath D dneg nl1 dl w p w' -> gcpath D dneg nl2 dl w p w'.
+Proof.
+  intros H Hp. induction Hp as [w | w n p w' Hn Hd Hw _ IH].
+  - apply gcp_nil.
+  - apply gcp_cons; auto.
+Qed.
+
+(* two dumps of the same design whose net lists are permutations of each other give,
+   for every wire, times that are == (each <= the other) *)
+Theorem timing_order_independent_ordered D dzero dadd dleb dneg nl1 nl2 dl :
+  ordered_delays D dadd dleb ->
+  wires nl1 = wires nl2 -> (forall n, In n (nets nl1) <-> In n (nets nl2)) ->
+  wfb nl1 = true -> wfb nl2 = true ->
+  (forall n, In n (nets nl1) -> dneg (dl n) = negb (is_comb (nop n)) /\ nargs n <> []) ->
+  forall w, In w (map wname (wires nl1)) ->
+  exists t1 t2, gassoc D (gtiming_map D dzero dadd dleb dneg nl1 dl) w = Some t1
+             /\ gassoc D (gtiming_map D dzero dadd dleb dneg nl2 dl) w = Some t2
+             /\ dleb t1 t2 = true /\ dleb t2 t1 = true.
+Proof.
+  intros Hord Hw Hn Hwf1 Hwf2 Hdl w Hin.
+  assert (Hdl2 : forall n, In n (nets nl2) -> dneg (dl n) = negb (is_comb (nop n)) /\ nargs n <> []).
+  { intros n H. apply Hdl. apply Hn. exact H. }
+  assert (Hb : forall x, is_base nl1 x = is_base nl2 x). { intro x. unfold is_base. rewrite Hw. reflexivity. }
+  destruct (timing_longest_ordered D dzero dadd dleb dneg nl1 dl Hord Hwf1 Hdl w Hin)
+    as [t1 [E1 [[a1 [p1 [B1 [P1 S1]]]] U1]]].
+  rewrite Hw in Hin.
+  destruct (timing_longest_ordered D dzero dadd dleb dneg nl2 dl Hord Hwf2 Hdl2 w Hin)
+    as [t2 [E2 [[a2 [p2 [B2 [P2 S2]]]] U2]]].
+  exists t1, t2. split; [exact E1|]. split; [exact E2|]. split.
+  - rewrite <- S1. apply (U2 a1 p1); [rewrite <- Hb; exact B1|].
+    eapply gcpath_ext; [|exact P1]. intros n Hx. apply Hn. exact Hx.
+  - rewrite <- S2. apply (U1 a2 p2); [rewrite Hb; exact B2|].
+    eapply gcpath_ext; [|exact P2]. intros n Hx. apply Hn. exact Hx.
+Qed.
